@@ -293,10 +293,13 @@ loop:
 			if len(resultSeries) == 0 && len(r) != 0 {
 				numSeries := 0
 				for i := range r {
-					numSeries += len(r[i].Samples)
+					if len(r[i].Samples) > numSeries {
+						numSeries = len(r[i].Samples)
+					}
 				}
-
-				series = make([]promql.Series, numSeries)
+				if len(series) < numSeries {
+					series = append(series, make([]promql.Series, numSeries-len(series))...)
+				}
 
 				for _, vector := range r {
 					for i := range vector.Samples {
